@@ -59,6 +59,20 @@ pub fn filter(r: &mut Rng, depth: usize) -> Value {
             }
         }
     } else {
+        // a connective whose members all speak about ONE tag (same name, same kind), mostly plain equalities: the shape an
+        // encoder "optimisation" (merging equalities into IN, de-duplicating clauses) would single out — seed C04f
+        if r.chance(1, 6) {
+            let name = fname(r, None);
+            let n = 2 + r.below(2);
+            let all_eq = r.chance(2, 3);
+            let qs: Vec<Value> = (0..n).map(|_| {
+                if all_eq || r.chance(1, 2) { json!({"eq": [name.clone(), *r.pick(&TAG_VALUES[..6])]}) }
+                else if r.chance(1, 2) { json!({"neq": [name.clone(), *r.pick(&TAG_VALUES[..6])]}) }
+                else { json!({"in": [name.clone(), [*r.pick(&TAG_VALUES[..6]), *r.pick(&TAG_VALUES[..6])]]}) }
+            }).collect();
+            let conj = json!({ if r.chance(1, 2) { "and" } else { "or" }: qs });
+            return if r.chance(1, 2) { json!({"not": conj}) } else { conj };
+        }
         match r.below(3) {
             0 => json!({"not": filter(r, depth - 1)}),
             k => {
